@@ -108,13 +108,24 @@ def _task(task):
         metas.append(tail)
     doc = docs.selector_doc(variants)
     try:
-        with case_alarm(60):
+        import warnings
+        with case_alarm(60), warnings.catch_warnings():
+            warnings.simplefilter("ignore")   # the deprecated spellings are announced with a UserWarning at load time
             defn = load_doc(doc)
     except BaseException as e:  # noqa: BLE001
         t.violation({"kind": "load-failed", "exc": type(e).__name__}, {"cfgs": cfgs, "offset": offset}, observed=str(e)[:300])
         return t
     full_upto = 12 if tier == "quick" else 16
+    # a deep copy of a definition is a definition: every other configuration is decoded through one
+    import copy
+    try:
+        defn_copy = copy.deepcopy(defn)
+    except Exception as e:  # noqa: BLE001
+        t.violation({"kind": "definition-not-copyable", "exc": type(e).__name__}, {"cfgs": cfgs, "offset": offset}, observed=str(e)[:300])
+        defn_copy = defn
+    defn_orig = defn
     for i, cfg in enumerate(cfgs):
+        defn = defn_copy if (i + offset) % 2 else defn_orig
         fam, w, enc, lsb = cfg
         tail = metas[i]
         pats = int_patterns(w, full_upto) if fam == "int" else float_patterns(cfg, tier)
@@ -137,7 +148,7 @@ def _task(task):
                         if why:
                             t.violation({"kind": "decode-mismatch", "family": fam, "enc": enc, "lsb_first": lsb,
                                          "aligned": offset == 0},
-                                        {"cfg": list(cfg), "offset": offset, "packet": pkt.hex(), "field_bits": fb},
+                                        {"cfg": list(cfg), "offset": offset, "packet": pkt.hex(), "field_bits": fb, "through_deepcopy": defn is defn_copy and defn_copy is not defn_orig},
                                         expected=[(x.name, x.value, x.raw) for x in want.items[7:]],
                                         observed=obs[1][7:] if obs[0] == "parsed" else obs[:3], note=why)
                         if npat < 2 and why is None:
@@ -188,7 +199,7 @@ def run(ctx):
                   "neighbour fill {0,1}; floats: binary16 ALL 65536 patterns, binary32/64 every exponent x mantissa family + walking bits + "
                   "specials, MIL-STD-1750A all 256 exponents x ~60 mantissas, both byte orders, also under the deprecated spellings 'MIL-1750A' / 'IEEE-754', "
                   f"offsets {'0,3 for the full sweeps, 0..7 for binary32/64' if ctx.quick else '0..7'}; "
-                  "per configuration and offset, the first two patterns are also decoded twice from one raw packet object of the framer"),
+                  "per configuration and offset, the first two patterns are also decoded twice from one raw packet object of the framer; every other configuration is decoded through copy.deepcopy of the loaded definition"),
         "rule": ("one evaluation = one packet parsed by the loaded definition and by the reference interpreter; distinct non-trivial = "
                  "distinct (configuration, offset, field bit pattern) triples"),
     }
@@ -217,6 +228,9 @@ def replay(case):
             if why:
                 return {"sig": {"kind": "decode-mismatch", "family": cfg[0], "history": f"raw packet object decoded {attempt}x"}, "case": case, "note": why}
         return None
+    if case.get("through_deepcopy"):
+        import copy
+        defn = copy.deepcopy(defn)
     why = compare_outcome(decode_packet(doc, pkt), parse_one(defn, pkt))
     if why:
         return {"sig": {"kind": "decode-mismatch", "family": cfg[0], "enc": cfg[2], "lsb_first": cfg[3], "aligned": offset == 0},
